@@ -72,7 +72,28 @@ def make_config(cls: str, params: dict):
         else:
             model = GaussianUnknownMean(prior_mean=pm, prior_var=pv, data_var=dv)
         return cd.BOCDConfig(model=model, **p)
+    if p and zlib.crc32(repr(sorted((k, repr(v)) for k, v in params.items())).encode()) % 4 == 1:
+        # a deterministic quarter of the configurations is built with the defaults and then given its values through the configuration's public, validating
+        # setters (in the constructor's own order, so that ordering constraints meet the same partner values): `cfg = XConfig(); cfg.alpha = 0.5` configures what
+        # `XConfig(alpha=0.5)` configures - anything a configuration derives from a value at construction must follow the setter
+        try:
+            cfg = getattr(cd, cls + "Config")()
+            # (only values behind a validating SETTER of the class: a plain attribute - ECDD-WT's `average_run_length`, which the constructor turns into a control-limit
+            # polynomial - offers no such entry point, and assigning to it is not configuring)
+            if not all(isinstance(getattr(type(cfg), name, None), property) and getattr(type(cfg), name).fset is not None for name in p):
+                raise LookupError("no setter")
+            for name, _, _ in PARAMS[cls]:
+                if name in p:
+                    setattr(cfg, name, p[name])
+            if all(getattr(cfg, name) == p[name] for name in p):
+                CONFIG_VIA_SETTERS[0] += 1
+                return cfg
+        except Exception:  # noqa: BLE001
+            pass        # (a pair that is only valid together, a read-only attribute ...: the constructor decides)
     return getattr(cd, cls + "Config")(**p)
+
+
+CONFIG_VIA_SETTERS = [0]
 
 
 def make(cls: str, params: dict, callbacks=None, config=None):
